@@ -1,12 +1,174 @@
 import Hub.Model.Dump
+import Hub.Model.Inv
+import Hub.Generated.Coin
 /-
-Executable monitors: the decidable (Bool) form of the invariants the property theorems are about.
-They run on the model state after every operation; in `--monitor` mode they run on states loaded
-from the implementation's dump.
+Executable monitors: the decidable (Bool) form of the invariants of `Inv.lean`, evaluated on
+finite tables.  They run on the model state after every operation (the driver prints a line
+`V <monitor> <detail>` for each failing one) and, in the search for a failing input, on states
+loaded from the implementation's dump.
 -/
 namespace Hub.Model
 open Hub.SDK
+open Hub.Generated (Status Gigabyte AmountForBytes)
 
-def monitorLines (_s : State) : List String := []
+def allDenoms (s : State) : List Denom :=
+  ((s.bank.keys.map (·.2)) ++ (s.deposits.vals.flatMap (·.map (·.denom))) ++ s.supply.keys).eraseDups
+
+/-- C01: escrow balance = sum of deposit records, per denomination. -/
+def backedB (s : State) : Bool :=
+  (allDenoms s).all fun d => balance s depositAddr d == totalDeposits s d
+
+/-- C01/C14: recorded supply = sum of balances, per denomination. -/
+def supplyB (s : State) : Bool :=
+  (allDenoms s).all fun d => supplyOf s d == bankTotal s d
+
+def nodupKeys {κ α : Type} [DecidableEq κ] (t : Tbl κ α) : Bool := t.keys.eraseDups.length == t.keys.length
+
+/-- C18. -/
+def countersB (s : State) : Bool :=
+  let pc := s.planCount.getD 0
+  let sc := s.subCount.getD 0
+  let ec := s.sessCount.getD 0
+  (s.planActive ++ s.planInactive).all (fun (i, p) => p.id == i && 1 ≤ i && i ≤ pc) &&
+  s.subs.all (fun (i, x) => x.id == i && 1 ≤ i && i ≤ sc) &&
+  s.allocs.all (fun ((i, a), al) => al.id == i && al.addr == a && 1 ≤ i && i ≤ sc) &&
+  s.payouts.all (fun (i, p) => p.id == i && 1 ≤ i && i ≤ sc) &&
+  s.sessions.all (fun (i, x) => x.id == i && 1 ≤ i && i ≤ ec && 1 ≤ x.sub && x.sub ≤ sc) &&
+  s.planForProv.keys.all (·.2 ≤ pc) && s.nodeForPlan.keys.all (·.1 ≤ pc) &&
+  s.subQ.keys.all (·.2 ≤ sc) && s.subForAcc.keys.all (·.2 ≤ sc) && s.subForNode.keys.all (·.2 ≤ sc) &&
+  s.subForPlan.keys.all (·.2 ≤ sc) && s.payQ.keys.all (·.2 ≤ sc) && s.payForAcc.keys.all (·.2 ≤ sc) &&
+  s.payForNode.keys.all (·.2 ≤ sc) && s.payForAccNode.keys.all (·.2.2 ≤ sc) &&
+  s.sessQ.keys.all (·.2 ≤ ec) && s.sessForAcc.keys.all (·.2 ≤ ec) && s.sessForNode.keys.all (·.2 ≤ ec) &&
+  s.sessForSub.keys.all (·.2 ≤ ec) && s.sessForAlloc.keys.all (·.2.2 ≤ ec)
+
+/-- RecInv: partitions. -/
+def partitionsB (s : State) : Bool :=
+  s.nodeActive.all (fun (a, n) => n.addr == a && n.status == .StatusActive && !s.nodeInactive.has a) &&
+  s.nodeInactive.all (fun (a, n) => n.addr == a && n.status == .StatusInactive && n.inactiveAt == zeroTime) &&
+  s.provActive.all (fun (a, p) => p.addr == a && p.status == .StatusActive && !s.provInactive.has a) &&
+  s.provInactive.all (fun (a, p) => p.addr == a && p.status == .StatusInactive) &&
+  s.planActive.all (fun (i, p) => p.id == i && p.status == .StatusActive && !s.planInactive.has i) &&
+  s.planInactive.all (fun (i, p) => p.id == i && p.status == .StatusInactive)
+
+/-- Two-way agreement between an index table and the set computed from the primary records. -/
+def idxAgrees {κ : Type} [DecidableEq κ] (idx : Tbl κ Unit) (expected : List κ) : Bool :=
+  idx.keys.all (expected.contains ·) && expected.all (idx.has ·) && nodupKeys idx
+
+/-- NodeIdx. -/
+def nodeIdxB (s : State) : Bool :=
+  idxAgrees s.nodeQ (s.nodeActive.map fun (a, n) => (n.inactiveAt, a)) &&
+  idxAgrees s.planForProv ((s.planActive ++ s.planInactive).map fun (i, p) => (p.prov, i)) &&
+  s.nodeForPlan.keys.all (fun (i, n) => (getPlan s i).isSome && hasNode s n) &&
+  nodupKeys s.nodeForPlan && nodupKeys s.nodeActive && nodupKeys s.nodeInactive && nodupKeys s.provActive &&
+  nodupKeys s.provInactive && nodupKeys s.planActive && nodupKeys s.planInactive
+
+/-- SessIdx (C09, session side). -/
+def sessIdxB (s : State) : Bool :=
+  idxAgrees s.sessQ (s.sessions.map fun (i, x) => (x.inactiveAt, i)) &&
+  idxAgrees s.sessForAcc (s.sessions.map fun (i, x) => (x.addr, i)) &&
+  idxAgrees s.sessForNode (s.sessions.map fun (i, x) => (x.node, i)) &&
+  idxAgrees s.sessForSub (s.sessions.map fun (i, x) => (x.sub, i)) &&
+  idxAgrees s.sessForAlloc (s.sessions.map fun (i, x) => (x.sub, x.addr, i)) &&
+  nodupKeys s.sessions
+
+def subNode (x : Sub) : Option Addr := match x.kind with | .node n _ _ _ => some n | _ => none
+def subPlan (x : Sub) : Option Nat := match x.kind with | .plan p _ => some p | _ => none
+
+/-- SubIdx (C09, subscription side). -/
+def subIdxB (s : State) : Bool :=
+  idxAgrees s.subQ (s.subs.map fun (i, x) => (x.inactiveAt, i)) &&
+  idxAgrees s.subForNode (s.subs.filterMap fun (i, x) => (subNode x).map (·, i)) &&
+  idxAgrees s.subForPlan (s.subs.filterMap fun (i, x) => (subPlan x).map (·, i)) &&
+  idxAgrees s.subForAcc ((s.subs.map fun ((i, x) : Nat × Sub) => (x.addr, i)) ++ (s.allocs.keys.map fun ((i, a) : Nat × Addr) => (a, i))).eraseDups &&
+  s.allocs.keys.all (fun (i, _) => s.subs.has i) &&
+  s.subs.all (fun (i, x) => if isHourly x then s.allocs.keys.all (·.1 ≠ i) else s.allocs.has (i, x.addr)) &&
+  s.subs.all (fun (i, x) => isPlanSub x || s.allocs.keys.all (fun (j, a) => j ≠ i || a == x.addr)) &&
+  s.subs.all (fun (i, x) => isHourly x == s.payouts.has i) && s.payouts.keys.all (s.subs.has ·) &&
+  s.payouts.all (fun (i, p) => match s.subs.get i with
+    | some x => (match x.kind with | .node n _ hr _ => n == p.node && hr ≠ 0 && x.addr == p.addr | _ => false) && 0 ≤ p.hours
+    | none => false) &&
+  idxAgrees s.payForAcc (s.payouts.map fun (i, p) => (p.addr, i)) &&
+  idxAgrees s.payForNode (s.payouts.map fun (i, p) => (p.node, i)) &&
+  idxAgrees s.payForAccNode (s.payouts.filterMap fun (i, p) =>
+    match s.subs.get i with | some x => if x.status == .StatusActive then some (p.addr, p.node, i) else none | none => none) &&
+  idxAgrees s.payQ (s.payouts.filterMap fun (i, p) =>
+    match s.subs.get i with | some x => if x.status == .StatusActive && 0 < p.hours then some (p.nextAt, i) else none | none => none) &&
+  nodupKeys s.subs && nodupKeys s.allocs && nodupKeys s.payouts
+
+/-- C06: bounds. -/
+def allocBoundsB (s : State) : Bool := s.allocs.all fun (_, al) => 0 ≤ al.used && al.used ≤ al.granted
+
+/-- C06: conservation. -/
+def quotaConservedB (s : State) : Bool :=
+  s.subs.all fun (i, x) => bought s x == some (grantedTotal s i)
+
+/-- LifeInv without the bound `M`. -/
+def lifecycleB (s : State) : Bool :=
+  s.sessions.all (fun (_, x) =>
+    (x.status == .StatusActive || x.status == .StatusInactivePending) &&
+    match s.subs.get x.sub with
+    | none => false
+    | some y => (x.status != .StatusActive || y.status == .StatusActive) &&
+                (y.status != .StatusInactivePending || x.inactiveAt ≤ y.inactiveAt)) &&
+  s.subs.all (fun (_, y) => y.status == .StatusActive || y.status == .StatusInactivePending) &&
+  -- at most one active session per (subscription, account), and it is the latest
+  s.sessions.all (fun (i, x) => x.status != .StatusActive ||
+    s.sessions.all (fun (j, z) => !(z.sub == x.sub && z.addr == x.addr) || j ≤ i))
+
+def okOr {α} (d : α) : M α → α
+  | .ok a => a
+  | .error _ => d
+
+/-- What of its deposit a live node subscription has not yet settled (C02). -/
+def remaining (s : State) (i : Nat) (x : Sub) : Option Coin :=
+  match x.kind with
+  | .node _ gb hr dep =>
+    if gb ≠ 0 then
+      match s.allocs.get (i, x.addr) with
+      | some al => some ⟨dep.denom, dep.amount - okOr 0 (AmountForBytes (Int.tdiv dep.amount gb) al.used)⟩
+      | none => none
+    else if hr ≠ 0 then
+      match s.payouts.get i with
+      | some p => some ⟨p.price.denom, p.price.amount * p.hours⟩
+      | none => none
+    else none
+  | .plan _ _ => some ⟨"", 0⟩
+
+/-- C02: every account's escrow record = the sum of the unsettled parts of its live node subscriptions. -/
+def escrowSplitB (s : State) : Bool :=
+  let accounts := (s.deposits.keys ++ s.subs.vals.map (·.addr)).eraseDups
+  accounts.all fun a =>
+    (allDenoms s).all fun d =>
+      let rec_ := ((s.deposits.get a).getD []).amountOf d
+      let owed := (s.subs.filterMap fun (i, x) =>
+        if x.addr == a then (remaining s i x).map (fun c => if c.denom == d then c.amount else 0) else none).foldl (· + ·) 0
+      rec_ == owed && s.subs.all (fun (i, x) => (remaining s i x).isSome)
+
+/-- C11: node prices within the bounds that are not exempt by a pending re-pricing sweep. -/
+def pricesB (s : State) : Bool :=
+  (s.nodeActive ++ s.nodeInactive).all fun (_, n) =>
+    (s.modified.maxGB || s.params.maxGB.all (fun c => n.gb.amountOf c.denom ≤ c.amount)) &&
+    (s.modified.minGB || s.params.minGB.all (fun c => c.amount ≤ n.gb.amountOf c.denom)) &&
+    (s.modified.maxHr || s.params.maxHr.all (fun c => n.hr.amountOf c.denom ≤ c.amount)) &&
+    (s.modified.minHr || s.params.minHr.all (fun c => c.amount ≤ n.hr.amountOf c.denom))
+
+/-- C04 (timeliness): after the end of a block no deadline is at or before the block time. -/
+def deadlinesFutureB (s : State) : Bool :=
+  s.nodeQ.keys.all (fun k => s.time < k.1) && s.subQ.keys.all (fun k => s.time < k.1) && s.sessQ.keys.all (fun k => s.time < k.1)
+
+/-- C14: recorded swaps have distinct hashes (`Tbl` keys) and positive amounts in one denomination each. -/
+def swapsB (s : State) : Bool := nodupKeys s.swaps && s.swaps.all (fun (h, w) => w.hash == h && 0 ≤ w.amt.amount)
+
+/-- The state monitors, by name. -/
+def stateMonitors (s : State) : List (String × Bool) := [
+  ("backed", backedB s), ("supply", supplyB s), ("counters", countersB s), ("partitions", partitionsB s),
+  ("nodeIdx", nodeIdxB s), ("sessIdx", sessIdxB s), ("subIdx", subIdxB s), ("allocBounds", allocBoundsB s),
+  ("quotaConserved", quotaConservedB s), ("lifecycle", lifecycleB s), ("escrowSplit", escrowSplitB s),
+  ("prices", pricesB s), ("swaps", swapsB s)]
+
+/-- `V` lines for the failing monitors (`afterEnd` adds the block-boundary monitors). -/
+def monitorLines (s : State) (afterEnd : Bool := false) : List String :=
+  let ms := stateMonitors s ++ (if afterEnd then [("deadlinesFuture", deadlinesFutureB s)] else [])
+  ms.filterMap fun (n, ok) => if ok then none else some ("V " ++ n)
 
 end Hub.Model
